@@ -598,8 +598,8 @@ class Var:
     def __repr__(self): return "<%s:%s>" % (self.name, self.ty)
 
 class Env:
-    def __init__(self, vs=None): self.vs = list(vs or [])
-    def declare(self, name, g, ty):
+    def __init__(self, vs=None, uninit=frozenset()): self.vs = list(vs or []); self.uninit = frozenset(uninit)
+    def declare(self, name, g, ty, uninit=False):
         # a new Rust variable that shadows a visible one gets its own Gallina name: the state tuples of the enclosing
         # loops keep referring to the shadowed variable
         used = {v.g for v in self.vs}
@@ -607,7 +607,13 @@ class Env:
             k = 1
             while "%s%d" % (g, k) in used: k += 1
             g = "%s%d" % (g, k)
-        v = Var(name, g, ty); return Env(self.vs + [v]), v
+        v = Var(name, g, ty); return Env(self.vs + [v], self.uninit | ({v} if uninit else set())), v
+    def init(self, v):
+        """the variable v (declared by `let mut v: T;`) has been assigned"""
+        return Env(self.vs, self.uninit - {v}) if v in self.uninit else self
+    def merge(self, env2):
+        """this scope, with the definite-assignment knowledge of the end of an inner block (env2)"""
+        return Env(self.vs, self.uninit & env2.uninit)
     def lookup(self, name):
         for v in reversed(self.vs):
             if v.name == name: return v
@@ -727,6 +733,7 @@ class Translator:
                 c = self.tb.CONSTS.get(e[1])
                 if c: return c
                 self.bad("unknown identifier `%s`" % e[1])
+            if v in env.uninit: self.bad("`%s` is read before it is assigned (declared by a `let` without initialiser)" % e[1])
             return (v.g, v.ty)
         if k == "un":
             op = e[1]
@@ -775,6 +782,7 @@ class Translator:
                 if tx != "elem" or tn not in ("usize", "lit"): self.bad("vec![x; n] with x : %s, n : %s" % (tx, tn))
                 return ("(repeat %s %s)" % (x, n), "vec")
             if e[1] == "vec":
+                if not e[2]: return ("(@nil (T A))", "vec")         # vec![]: the `locals` table of the function may retype it
                 parts = [self.ex(x, env, B) for x in e[2]]
                 if any(ty != "elem" for _, ty in parts): self.bad("vec![..] of non-element values")
                 return ("(" + " :: ".join([t for t, _ in parts] + ["(@nil (T A))"]) + ")", "vec")
@@ -872,10 +880,13 @@ class Translator:
         base, ty = self.ex(e[1], env, B)
         f = self.tb.FIELDS.get((ty if not isinstance(ty, tuple) else ty[0], e[2]))
         if f is None:
-            if isinstance(ty, tuple) and ty[0] == "tuple" and e[2].isdigit() and len(ty[1]) == 2 and int(e[2]) < 2:
-                return ("(%s %s)" % ("fst" if e[2] == "0" else "snd", base), ty[1][int(e[2])])
-            if isinstance(ty, tuple) and ty[0] == "tuple" and e[2].isdigit():
-                self.bad("tuple projection .%s of a tuple that is not a pair (bind it with a `let (a, b, ..) = ..` pattern instead)" % e[2])
+            if isinstance(ty, tuple) and ty[0] == "tuple" and e[2].isdigit() and len(ty[1]) >= 2 and int(e[2]) < len(ty[1]):
+                # (a, b, c) is the left-nested pair ((a, b), c)
+                n, i = len(ty[1]), int(e[2])
+                t = base
+                for _ in range(n - 1 - i if i > 0 else n - 1): t = "(fst %s)" % t
+                if i > 0: t = "(snd %s)" % t
+                return (t, ty[1][i])
             self.bad("field `.%s` of a value of type %s" % (e[2], ty))
         return (f[0].format(base), f[1])
 
@@ -940,6 +951,13 @@ class Translator:
                 return (v, "vec")
             return ("(map (fun %s => %s) %s)" % (xv.g, body, src), "vec")
         if name in ("clone", "to_owned", "to_vec") and not args: return self.ex(recv, env, B)
+        if name == "sort_by_key" and len(args) == 1:
+            # v.sort_by_key(|x| x.K): the key must be literally a tuple projection of the closure parameter
+            clo = args[0]
+            if not (clo[0] == "closure" and len(clo[1]) == 1 and clo[1][0][0] == "pvar" and clo[2][0] == "field"
+                    and clo[2][1] == ("var", clo[1][0][1]) and clo[2][2].isdigit()):
+                self.bad(".sort_by_key(..) whose key is not `|x| x.<k>`")
+            name, args = "sort_by_key:proj%s" % clo[2][2], []
         r, tr = self.ex(recv, env, B)
         if isinstance(tr, tuple) and tr[0] == "opt" and name == "unwrap" and not args:
             v = self.fresh("u"); B.append(("bind", ("v", v), ("app", "unwrap_opt", [g_raw(r)]))); return (v, tr[1])
@@ -999,6 +1017,13 @@ class Translator:
             for pat, ctor in self.spec["result_sum"]["errors"]:
                 if re.search(pat, a[1]): return ("(inr %s)" % ctor, ("sum", None))
             self.bad("Err(%r): no constructor for this message in the table" % a[1])
+        if path in ("Ok", "Err") and len(args) == 1 and self.spec.get("result_enum"):
+            re_ = self.spec["result_enum"]
+            t, ty = self.ex(args[0], env, B)
+            want = re_["ok_ty" if path == "Ok" else "err_ty"]
+            if ty == "lit": t = self.lit(t, "lit", want); ty = want
+            if ty != want: self.bad("%s(..) of a value of type %s (the table expects %s)" % (path, ty, want))
+            return ("(%s %s)" % (re_["ok" if path == "Ok" else "err"], t), re_["ty"])
         if path == "Some" and len(args) == 1:
             t, ty = self.ex(args[0], env, B)
             return ("(Some %s)" % self.lit(t, ty, "usize"), ("opt", "usize" if ty == "lit" else ty))
@@ -1136,7 +1161,7 @@ class Translator:
                 if e[1] is None: return self.ctx.ret(env, None)
                 B = []; v = self.ex(e[1], env, B); return wrap(B, self.ctx.ret(env, v))
             if e[0] == "cont_expr": return self.ctx.cont(env)
-            if e[0] == "block": return self.block(e[1], env, lambda env2, v: rest(env))
+            if e[0] == "block": return self.block(e[1], env, lambda env2, v: rest(env.merge(env2)))
             B = []
             if e[0] == "mcall": t, ty = self.mcall(e, env, B, stmt=True)
             else: t, ty = self.ex(e, env, B)
@@ -1158,7 +1183,14 @@ class Translator:
 
     def let_stmt(self, s, env, rest):
         pat, ty, e = s[1], s[2], s[3]
-        if e is None: self.bad("`let` without initialiser")
+        if e is None:
+            # `let mut x: T;` -- declared, assigned later (Rust's definite-assignment analysis guarantees that no path reads
+            # it before): no Gallina binder here; the first assignment on each path binds it
+            if pat[0] != "pvar" or ty is None: self.bad("`let` without initialiser and without a type")
+            dty = rust_type(ty, self.selfty)
+            if isinstance(dty, tuple) and dty[0] == "unknown": self.bad("`let %s: %s;` of unsupported type" % (pat[1], dty[1]))
+            env2, v = env.declare(pat[1], self.gname(pat[1]), dty, uninit=True)
+            return rest(env2)
         if e[0] == "match": return self.let_match(s, env, rest)
         B = []
         t, tv = self.ex(e, env, B)
@@ -1223,6 +1255,8 @@ class Translator:
         if op == "=":
             t, ty = self.ex(rhs, env, B)
             self.assign_place(place, t, ty, env, B)
+            pl = strip(place)
+            if pl[0] == "var" and env.lookup(pl[1]) is not None: env = env.init(env.lookup(pl[1]))
             return wrap(B, rest(env))
         # compound assignment: place first (read), then the right operand, then the write
         bop = op[0]
@@ -1287,16 +1321,22 @@ class Translator:
         if tex and eex:
             return wrap(B, ("if", c, self.block(th, env, unreachable), self.block(el, env, unreachable)))
         if tex:
-            return wrap(B, ("if", c, self.block(th, env, unreachable), self.block(el, env, lambda env2, v: rest(env))))
+            return wrap(B, ("if", c, self.block(th, env, unreachable), self.block(el, env, lambda env2, v: rest(env.merge(env2)))))
         if eex:
-            return wrap(B, ("if", c, self.block(th, env, lambda env2, v: rest(env)), self.block(el, env, unreachable)))
+            return wrap(B, ("if", c, self.block(th, env, lambda env2, v: rest(env.merge(env2))), self.block(el, env, unreachable)))
         # both branches fall through: join on the variables they assign
+        ends = []
         def run(rec):
             self.ctx = self.ctx.sub(record=rec)
-            self.block(th, env, lambda env2, v: g_ok(g_raw("tt")))
-            self.block(el, env, lambda env2, v: g_ok(g_raw("tt")))
+            self.block(th, env, lambda env2, v: (ends.append(env2), g_ok(g_raw("tt")))[1])
+            self.block(el, env, lambda env2, v: (ends.append(env2), g_ok(g_raw("tt")))[1])
         outer_ctx = self.ctx
         M = self.assigned_in(run, env)
+        # a variable declared without initialiser takes part in the join only if every path that falls through assigns it
+        # (otherwise it is still unassigned afterwards and the assignments are local to their branch)
+        M = [v for v in M if v not in env.uninit or all(v not in e2.uninit for e2 in ends)]
+        env_after = env
+        for v in M: env_after = env_after.init(v)
         names = self.state_of(M)
         escape = lambda *a: self.bad("`return` / `continue` inside an `if` whose other paths fall through (join needed)")
         self.ctx = outer_ctx.sub(ret=escape, cont=escape)
@@ -1306,11 +1346,14 @@ class Translator:
         finally:
             self.ctx = outer_ctx
         for v in M: self.ctx.note(v)
-        return wrap(B, mk_bind(names_pat(names), ("if", c, a, b), rest(env)))
+        return wrap(B, mk_bind(names_pat(names), ("if", c, a, b), rest(env_after)))
 
     def for_stmt(self, s, env, rest):
         pat, it, body = s[1], strip(s[2]), s[3]
         if pat[0] != "pvar": self.bad("`for` with a tuple pattern")
+        if it[0] == "mcall" and it[2] == "drain" and len(it[3]) == 1 and strip(it[3][0])[0] == "range" \
+           and strip(it[3][0])[1] is None and strip(it[3][0])[2] is None:
+            return self.for_in_stmt(pat, it[1], body, env, rest, drain=True)
         rev = False
         if it[0] == "mcall" and it[2] == "rev" and not it[3]:
             rev = True; it = strip(it[1])
@@ -1330,6 +1373,9 @@ class Translator:
             self.block(body, env_i, lambda env2, v: g_ok(g_raw("tt")))
         outer_ctx = self.ctx
         M = self.assigned_in(run, env)
+        # a variable that is still unassigned at the loop head is assigned in every pass before it is read and is not read
+        # after the loop (definite assignment): it is local to the body, not part of the loop state
+        M = [v for v in M if v not in env.uninit]
         names = self.state_of(M)
         early = contains_return(body)
         if early and (rev or signed): self.bad("`return` inside a reversed / isize `for` loop")
@@ -1361,6 +1407,43 @@ class Translator:
             return wrap(B, ("bind", ("v", o), loop, ("match", o, [(pat_inl, rest(env)), ("inr %s" % r, outer_ctx.ret_raw(r))])))
         return wrap(B, mk_bind(names_pat(names), loop, rest(env)))
 
+    def for_in_stmt(self, pat, src, body, env, rest, drain):
+        """for x in v.drain(..) { body }: the elements in order (for_in, gen/SrcPrelude.v); v is empty afterwards"""
+        B = []
+        lst, tl = self.ex(src, env, B)
+        if tl not in LISTS: self.bad("`for .. in` over a value of type %s" % (tl,))
+        if contains_return(body): self.bad("`return` inside a `for` over the elements of a vector")
+        env_i, iv = env.declare(pat[1], self.gname(pat[1]), LISTS[tl])
+        def run(rec):
+            self.ctx = self.ctx.sub(record=rec, cont=lambda env2: g_ok(g_raw("tt")))
+            self.block(body, env_i, lambda env2, v: g_ok(g_raw("tt")))
+        outer_ctx = self.ctx
+        M = self.assigned_in(run, env)
+        M = [v for v in M if v not in env.uninit]
+        owner = self.root_var(src, env)
+        if owner in M: self.bad("the vector a `for` loop drains is assigned inside the loop")
+        names = self.state_of(M)
+        st = g_ok(g_raw(names_term(names)))
+        noret = lambda *a: self.bad("`return` inside a `for` loop")
+        self.ctx = outer_ctx.sub(ret=noret, cont=lambda env2: st)
+        try:
+            bt = self.block(body, env_i, lambda env2, v: st)
+        finally:
+            self.ctx = outer_ctx
+        sty = gtype(("tuple", [v.ty for v in M])) if len(M) > 1 else (gtype(M[0].ty) if M else "unit")
+        if len(M) > 1:
+            sv = self.fresh("s")
+            fun = ("fun", [(iv.g, None), (sv, sty)], mk_let(("tup", names), g_raw(sv), bt))
+        elif len(M) == 1:
+            fun = ("fun", [(iv.g, None), (names[0], sty)], bt)
+        else:
+            fun = ("fun", [(iv.g, None), ("_", "unit")], bt)
+        loop = ("app", "for_in", [g_raw(lst), fun, g_raw(names_term(names))])
+        for v in M: self.ctx.note(v)
+        B2 = []
+        if drain: self.assign_place(src, "(@nil %s)" % gtype(LISTS[tl]), tl, env, B2)
+        return wrap(B, mk_bind(names_pat(names), loop, wrap(B2, rest(env))))
+
     def while_stmt(self, s, env, rest):
         """while c { body }  with the fuel bound (and the out-of-fuel outcome) of the table entry of the function:
            while_ret fuel (fun state => <c>; if c then body; WNext state else WDone state) state"""
@@ -1375,6 +1458,7 @@ class Translator:
         outer_ctx = self.ctx
         saved_w = self.nwhile
         M = self.assigned_in(run, env)
+        M = [v for v in M if v not in env.uninit]
         self.nwhile = saved_w
         names = self.state_of(M)
         nxt = g_ok(g_raw("(WNext %s)" % names_term(names)))
